@@ -19,6 +19,7 @@ func init() {
 		Explanation: "C12/gate inventories every reference to Handler.HandleDownload in main and checks the Authenticated wrapper's guard and the in-handler guard. C12/host-policy cuts equality edges in getHost per accepting return. C12/query-token is the chain on security.QueryInfo. C12/bindings follows values in HandleDownload. C12/claims re-checks GeneratePAAToken's claims. C12/issue-verify-agreement compares the substitution call of issuance and verification.",
 		Assumptions: []string{"the redirect branch of the wrapper never calls the wrapped handler (checked by the guard)"},
 		Rules: []RuleDef{
+			{"C12/fresh-identity", "the identity that carries the request's client address is an object of this request: GetSessionIdentity returns a freshly decoded identity, never one kept in a cache or package variable (C13's rule)", func(c *Ctx) { freshIdentityAs(c, "C12/fresh-identity") }},
 			{"C12/gate", "token generation only over Authenticated()==true (router wrapper with redirect, and/or in-handler test)", c12Gate},
 			{"C12/host-policy", "getHost returns a configured entry, a value equal to one, or (only in 'any' mode) the query value; signed: QueryInfo's verified subject", c12HostPolicy},
 			{"C12/query-token", "QueryInfo: non-error only after HS256 parse, MAC under QuerySigningKey and issuer/expiry validation; returns the verified subject", c12QueryToken},
